@@ -442,6 +442,7 @@ func (c *Conn) Parse(data []byte) (retErr error) {
 	var isProtocolMessage bool
 	var opcode MessageType
 	var ok, fin, compress bool
+	var messageDone bool
 	var totalFrameSize int
 
 	releaseBuf := func() {
@@ -507,7 +508,8 @@ func (c *Conn) Parse(data []byte) (retErr error) {
 					if fin {
 						message = c.message
 						c.message = nil
-						if c.compress {
+						messageDone = true
+						if c.compress && message != nil {
 							var pb *[]byte
 							var rc io.ReadCloser
 							if c.WebsocketDecompressor != nil {
@@ -566,9 +568,11 @@ func (c *Conn) Parse(data []byte) (retErr error) {
 			return err
 		}
 
-		if message != nil {
+		if messageDone {
+			// message is nil for a message with an empty payload.
 			c.handleMessage(msgType, message)
 			message = nil
+			messageDone = false
 		}
 		if frame != nil {
 			c.handleDataFrame(msgType, fin, frame)
